@@ -271,10 +271,79 @@ def md7(F, R):
                 R.ok(fn, key, "no effect precedes %s (%d effects in function)" % (key, len(effs)), fn.loc(b, i))
 
 
+def file_is_open_any_form(F, fn):
+    """file_is_open written as `self.open_files.iter().any(|f| <conjunction>)`: returns None when it is not of this form,
+    else (ok, detail, fields) where fields is the set of record fields the conjunction compares with the arguments
+    (each conjunct an equality between a field of the scanned record and the matching argument) - nothing else may take
+    part in the answer."""
+    from .ev import norm_bool
+    ds = fn.defs().get(0, [])
+    if len(ds) != 1 or ds[0][0] != "call":
+        return None
+    ct = fn.call_term(ds[0][2], ds[0][1])
+    if not (ct[1] or "").endswith("Iterator::any"):
+        return None
+    if _iter_table(fn, ct) != "open_files":
+        return (False, "the scan does not run over open_files", set())
+    clo = strip_refs(ct[2][1])
+    if not (clo[0] == "agg" and clo[1] == "Closure"):
+        return (False, "the predicate is not a closure literal", set())
+    try:
+        c = F.closure(clo[2])
+    except KeyError:
+        return (False, "closure body not found", set())
+    conj = []
+    may_true = []
+    for d in c.defs().get(0, []):
+        v = c.term_of_rvalue(d[3], d[1]) if d[0] == "assign" else c.call_term(d[2], d[1])
+        if v[:2] == ("c", 0):
+            continue
+        may_true.append((d[1], v))
+    if len(may_true) != 1:
+        return (False, "the predicate has %d ways to answer true" % len(may_true), set())
+    tb, tv = may_true[0]
+    tt, truth = norm_bool(tv, True)
+    if tt[0] != "cmp" or tt[1] != "Eq" or not truth:
+        return (False, "the predicate's last conjunct is not an equality: %s" % tstr(tv)[:60], set())
+    conj.append(tt)
+    extra = []
+    for (gb, gi, g) in all_guards(c):
+        if not c.unreachable_without(tb, [(gb, gi)]):
+            continue
+        if g.kind == "bool" and g.term[0] == "cmp" and g.term[1] == "Eq" and g.truth is True:
+            conj.append(g.term)
+        else:
+            extra.append(repr(g)[:60])
+    fields = set()
+    for t in conj:
+        sides = [strip_refs(t[2]), strip_refs(t[3])]
+        item = [x for x in sides if x[0] == "place" and strip_refs(x[1])[:2] == ("arg", 2)]
+        cap = [x for x in sides if x[0] == "place" and strip_refs(x[1])[:2] == ("arg", 1)]
+        if len(item) != 1 or len(cap) != 1:
+            extra.append(tstr(t)[:60])
+            continue
+        fi = tuple(e for e in item[0][2] if isinstance(e, str) and e not in ("*", "0") and not e.startswith("as:"))
+        fc = tuple(e for e in cap[0][2] if isinstance(e, str) and e != "*" and not e.isdigit() and not e.startswith("as:"))
+        if fi == ("raw_volume",) and fc in ((), ("raw_volume",)):
+            fields.add("raw_volume")
+        elif fi[-1:] == fc[-1:] and fi[-1:] in (("entry_block",), ("entry_offset",)):
+            fields.add(fi[-1])
+        else:
+            extra.append(tstr(t)[:60])
+    if extra:
+        return (False, "the predicate also depends on %s" % "; ".join(extra), fields)
+    return (True, "any(|f| %s)" % " && ".join(sorted(fields)), fields)
+
+
 @rule("MD9", ["C07", "C09"], floor=3,
       doc="file_is_open identifies an open file by (volume, entry block, entry offset): returns true only under all three equalities")
 def md9(F, R):
     fn = F.fn(VMD + "::file_is_open")
+    af = file_is_open_any_form(F, fn)
+    if af is not None:
+        for fld in ("raw_volume", "entry_block", "entry_offset"):
+            R.require(fld in af[2], fn, "eq:" + fld, "`true` reachable without comparing %s (%s)" % (fld, af[1]), fn.loc(0))
+        return
     trues = [(b, i) for b, i, s in fn.stmts() if s["k"] == "Assign" and s["p"]["l"] == 0 and not s["p"]["proj"] and fn.term_of_rvalue(s["rv"], b) == ("c", 1, None)]
     if not trues:
         R.bad(fn, "anchor", "no `return true`", kind="anchor-missing")
